@@ -19,6 +19,7 @@ type Shard struct {
 	R      *RNG
 	Index  int
 	NShards int
+	Work    string // scratch directory of this run (under the -out directory)
 	Tier   string
 	Repo   string
 	cases  []string
@@ -143,7 +144,7 @@ func RunSuite(name string, seed uint64, tier, repo, dir string) error {
 	shards := make([]*Shard, nShards)
 	var wg sync.WaitGroup
 	for i := range shards {
-		shards[i] = &Shard{R: NewRNG(seed*1000003 + uint64(i)), Index: i, NShards: nShards, Tier: tier, Repo: repo, counts: map[string]int{}, sigs: map[string]struct{}{}}
+		shards[i] = &Shard{R: NewRNG(seed*1000003 + uint64(i)), Index: i, NShards: nShards, Work: dir, Tier: tier, Repo: repo, counts: map[string]int{}, sigs: map[string]struct{}{}}
 		wg.Add(1)
 		go func(s *Shard) {
 			defer wg.Done()
